@@ -107,12 +107,13 @@ void checkTime(const sess::History& h, const uci::Model& m, const Scenario& sc, 
         for (const sess::LimitEv* e : later) {
             bool isStop = e->minT == 0 && e->maxT == 0;
             long nodesAfter = bm.mainTicks - e->mainTicks;
+            bool engineIdle = bm.allTicks == e->allTicks; // no node at all was searched after the event
             long long dt = bm.t - e->t;
             if (isStop) {
                 res.counters["stop_checked"]++;
                 if (nodesAfter > N + 2)
                     res.violate("C06", "stop-latency", std::to_string(nodesAfter) + " main-search nodes between stop and bestmove (allowed " + std::to_string(N) + ")" + ctx);
-                else if (nodesAfter == 0 && dt > 10000000LL + slackNs + injected && (g.ponderKw || g.modelInfinite) && effectiveMaxNPS(g) == 0) {
+                else if (engineIdle && dt > 10000000LL + slackNs + injected && (g.ponderKw || g.modelInfinite) && effectiveMaxNPS(g) == 0) {
                     // engine was not searching: it sits in the 10 ms ponder/infinite wait loop
                     res.violate("C06", "stop-latency", "bestmove " + std::to_string(dt / 1000) + " us after stop although the search had already ended (allowed 10 ms)" + ctx);
                 }
@@ -128,7 +129,7 @@ void checkTime(const sess::History& h, const uci::Model& m, const Scenario& sc, 
                         res.counters["probe_ponderhit_limits_exhausted"]++;
                         if (nodesAfter > N + 2)
                             res.violate("C06", "ponderhit-latency", std::to_string(nodesAfter) + " main-search nodes after ponderhit with exhausted limits" + ctx);
-                        else if (nodesAfter == 0 && dt > 10000000LL + slackNs + injected && effectiveMaxNPS(g) == 0)
+                        else if (engineIdle && dt > 10000000LL + slackNs + injected && effectiveMaxNPS(g) == 0)
                             res.violate("C06", "ponderhit-latency", "bestmove " + std::to_string(dt / 1000) + " us after ponderhit although limits were exhausted and the search idle" + ctx);
                     }
                     long long Dns = e->t + B * 1000000LL + injected;
